@@ -38,6 +38,12 @@ def make_eval(kind, rng):
         k = get_rbf_kernel(slice(0, N1), ls, scale=1.3)
         X1c = rng.uniform(0, 1, size=(nctrl, N1))
         return (KernelEvaluator if kind == "kernel" else RBFEvaluator)(k, X1c, alpha)
+    if kind == "kernelsum":
+        # a SUM kernel with the constant term on the left, through the Python evaluator (the general route for kernels that
+        # have no compiled evaluator): constant + constant * RBF
+        from ciderpress.models import kernels as K
+        k = K.DiffConstantKernel(0.4) + get_rbf_kernel(slice(0, N1), ls, scale=1.3)
+        return KernelEvaluator(k, rng.uniform(0, 1, size=(nctrl, N1)), alpha)
     if kind == "antisym":
         k = get_rbf_kernel(slice(0, N1 - 1), ls[: N1 - 1], scale=0.9)
         return AntisymRBFEvaluator(k, rng.uniform(0, 1, size=(nctrl, N1)), alpha)
@@ -191,9 +197,9 @@ def check_cfg(ck, c, rng, n=12):
 
 def accumulation(ck, rng):
     """evaluators ADD into the buffers they are given: after - before = evaluator alone"""
-    for kind in ("kernel", "rbf", "antisym", "spline", "linear", "spinrbf"):
+    for kind in ("kernel", "kernelsum", "rbf", "antisym", "spline", "linear", "spinrbf"):
         ev = make_eval(kind, rng)
-        for n in (1, 7, 1999, 2000, 2001, 4001) if kind == "kernel" else (1, 7, 33):
+        for n in (1, 7, 1999, 2000, 2001, 4001) if kind in ("kernel", "kernelsum") else (1, 7, 33):
             X1 = rng.uniform(0.05, 0.95, size=(2, n, N1) if kind == "spinrbf" else (n, N1))
             f0 = rng.normal(size=n)
             d0 = rng.normal(size=X1.shape)
@@ -208,7 +214,7 @@ def accumulation(ck, rng):
             if np.abs((fa - f0) - fb).max() > 1e-12 * (1 + np.abs(fb).max()) or np.abs((da - d0) - db).max() > 1e-12 * (1 + np.abs(db).max()):
                 ck.violation("accumulate:%s:not-additive" % kind, {"n": n})
             # value/derivative consistency of the bare evaluator at chunk boundaries
-            if kind == "kernel":
+            if kind in ("kernel", "kernelsum"):
                 j = 1
                 h = 1e-6
                 Xp, Xm = X1.copy(), X1.copy()
@@ -223,7 +229,7 @@ def special_points(ck, rng):
     """the derivative array of every bare evaluator against finite differences of its value at points where a special-cased
     branch could sit: two (or all) features exactly equal, a feature exactly at a control point's value, a point that IS a
     control point, features exactly 0 / 1 (not for splines: outside their grid the package extrapolates, observation O8)"""
-    for kind in ("kernel", "rbf", "antisym", "linear", "spinrbf", "spline"):
+    for kind in ("kernel", "kernelsum", "rbf", "antisym", "linear", "spinrbf", "spline"):
         ev = make_eval(kind, rng)
         ctrl = getattr(ev, "_X1ctrl", getattr(ev, "X1ctrl", None))
         base = rng.uniform(0.15, 0.85, size=(8, N1))
@@ -274,7 +280,7 @@ def value_semantics(ck, rng, hists):
     feature arrays between calls and keeps earlier results (energy densities, derivative arrays)."""
     import copy
     import valuesem
-    for kind in ("kernel", "rbf", "antisym", "spline", "linear", "spinrbf"):
+    for kind in ("kernel", "kernelsum", "rbf", "antisym", "spline", "linear", "spinrbf"):
         ev = make_eval(kind, rng)
         fresh = copy.deepcopy(ev)
         shape = (2, 9, N1) if kind == "spinrbf" else (9, N1)
